@@ -17,7 +17,7 @@ PROP = dict(
           "conversions, foreach/foreach2/range-for; == and != between two addressed Vars in both orders, against literals, against "
           "own copies/clones, and against a freshly built Var with the same content in other representations (INT<->NUMBER<->FLOAT "
           "where exact, inline<->heap strings, recursively through containers) with and without one changed leaf. "
-          "Also: sstr = two string assignments in a row through generated const char*/String overloads, mostly a shorter inline "
+          "Also: in 6 of 8 sstr ops a heap string is afterwards re-assigned from its own text through operator*() (the whole text, or a tail that does not overlap its destination) and compared with a fresh Var of that text. sstr = two string assignments in a row through generated const char*/String overloads, mostly a shorter inline "
           "string (0..6 bytes, incl. proper prefixes and the empty string) over a longer inline one (1..7 bytes), followed by Var == Var "
           "against freshly built Vars of the same text in both orders, clone/copy, contains() of the parent array and the whole slot "
           "against a freshly built tree; big = a 130..400-element array / 55..200-key object (built from Array<int>/Dic<int>, or grown "
